@@ -272,6 +272,15 @@ def generate(repo, outdir_lean, outdir_json, write_if_changed):
                                     f"    pullLink rp hist s' (a, .plain path [] names) = .ok v :=\n"
                                     f"  Aoe.Props.Links.pull_after_commit {mod}.classes fuel {cid} hist s s' vals {mod}.c{cid} rfl plainOnly_{mod}_{cname}\n"
                                     f"    pathsDistinct_{mod}_{cname} h rp a path names v hm\n")
+                    laws_src.append(f"/-- two commits of a {cname} (version {v}) from the same sections differ only inside the retrievers of its links -/\n"
+                                    f"theorem edit_lands_{mod}_{cname} (fuel : Nat) (hist : List Nat) (s s1 s2 : Sections) (vals1 vals2 : List Val)\n"
+                                    f"    (h1 : commitObj {mod}.classes (fuel + 1) {cid} hist (.strct vals1) s = .ok s1)\n"
+                                    f"    (h2 : commitObj {mod}.classes (fuel + 1) {cid} hist (.strct vals2) s = .ok s2)\n"
+                                    f"    (q : List Step)\n"
+                                    f"    (hq : ∀ a path acts names p, (a, LinkKind.plain path acts names) ∈ {mod}.c{cid}.links → resolve hist path = some p →\n"
+                                    f"      Aoe.Props.C05.Diverge p q) : getAt q s1.root = getAt q s2.root :=\n"
+                                    f"  (Aoe.Props.Links.edit_lands_only_there {mod}.classes fuel {cid} hist s s1 s2 vals1 vals2 {mod}.c{cid} rfl\n"
+                                    f"    plainOnly_{mod}_{cname} pathsDistinct_{mod}_{cname} h1 h2 (fun _ _ => .error .shape)).2 q hq\n")
         mods.append((v, mod))
         meta_all[v] = {"classes": g.meta, "managers": [c.__name__ for c in mgr_classes]}
     agg = "\n".join(f"import Aoe.Generated.{m}" for _, m in mods) + "\n/-! GENERATED by tools/gen_mgr.py -/\nnamespace Aoe.Generated\nopen Aoe.Commit\n"
@@ -281,7 +290,7 @@ def generate(repo, outdir_lean, outdir_json, write_if_changed):
     fn = os.path.join(outdir_lean, "MgrTables.lean"); write_if_changed(fn, agg); files.append(fn)
     laws = ("import Aoe.Props.Links\nimport Aoe.Generated.MgrTables\n/-! GENERATED by tools/gen_mgr.py – `commit ∘ construct = id` instantiated at every generated class "
             "whose links are plain value links without refresh actions (side condition closed by `decide`). -/\n"
-            "namespace Aoe.Generated.MgrLaws\nopen Aoe Aoe.Codec Aoe.Commit Aoe.Generated\n\n" + "\n".join(laws_src) + "\nend Aoe.Generated.MgrLaws\n")
+            "namespace Aoe.Generated.MgrLaws\nopen Aoe Aoe.Codec Aoe.Lens Aoe.Commit Aoe.Generated\n\n" + "\n".join(laws_src) + "\nend Aoe.Generated.MgrLaws\n")
     fn = os.path.join(outdir_lean, "MgrLaws.lean"); write_if_changed(fn, laws); files.append(fn)
     os.makedirs(outdir_json, exist_ok=True)
     fn = os.path.join(outdir_json, "mgr.json")
